@@ -16,6 +16,10 @@ mod c15;
 mod c18;
 #[cfg(kani)]
 mod c14;
+#[cfg(kani)]
+mod c17;
+#[cfg(kani)]
+mod c01;
 
 // concrete playback tests printed by Kani for a failing harness are replayed from here
 #[cfg(kani)]
